@@ -12,15 +12,24 @@
                         stored packet if it is more recent, otherwise replaces packet and index entry;
                         Get answers from the open transaction; CheckExpired removes packet + index
                         entry if the packet is older than the cut-off *now*, else only the index entry
-     CommitFull         `for _ in 0..max_batch_size` exhausted: `transaction.commit()`
+     CommitFull         `for _ in 0..max_batch_size` exhausted: `transaction.commit()`.  A commit is
+                        durable (fsynced: `disk` := `work`); a non-durable commit (redb
+                        Durability::None) is visible to readers but a crash falls back to `disk`.
+                        The pinned code commits every batch durably whatever it contains.
+                        DurabilityByOpener = TRUE is the deviating design "a batch opened by an
+                        eviction check needs no fsync": the durability is chosen by the batch's
+                        FIRST message, although client upserts may fall into the same batch -
+                        TLC refutes CommittedOnDisk / CrashKeepsCommit for it
      CommitTimeout      `max_batch_time` elapsed: commit            (only if Timeouts)
      Close              SignedPacketStore dropped: cancel -> the open batch is committed
-     Crash / Reopen     the process dies: the open transaction is lost, the database file keeps the
-                        last commit; SignedPacketStore::open on it
+     Crash / Reopen     the process dies: the open transaction and every non-durable commit are lost,
+                        the database file keeps the last durable commit; SignedPacketStore::open on it
      EvictScan          evict_task_inner: read snapshot (= last commit) of the index, one
                         CheckExpired message per entry older than the cut-off     (only if Evict)
      Tick               time passes                                               (only if Evict)
-   `points` records, after every step, (messages sent, replies received, durable content): what a
+   A client message can also be "snap": a read snapshot of the committed tables (handled outside
+   any transaction when none is open), the client's way to see that a batch has committed.
+   `points` records, after every step, (messages sent, replies received, content on disk): what a
    crash at that moment leaves behind.  The harness (vh_dnssrv c39) runs the same workload on the
    real store over a recording redb StorageBackend, cuts the backend's operation log after every
    operation, reopens each image and demands that the content is one of the durable states the
@@ -34,8 +43,11 @@ CONSTANTS Keys, Tss, Pls,
           Evict,      \* BOOLEAN: eviction task and clock
           Eviction,   \* retention period
           MaxNow, Now0,
+          DurabilityByOpener,  \* TRUE: deviating design, see CommitFull above
           KeepRunning \* TRUE: the store is never closed (liveness configurations)
-VARIABLES durable,    \* [pk: [Keys -> packet], ix: set of <<ts, key>>]   the committed database
+VARIABLES durable,    \* [pk: [Keys -> packet], ix: set of <<ts, key>>]   the committed database (what readers see)
+          disk,       \* the last durably committed database (what a crash leaves)
+          opener,     \* kind of the message that opened the current batch: "client" | "check" | "none"
           work,       \* the open write transaction's view (= durable when none is open)
           open, n,    \* transaction open?  messages handled in it
           inbox,      \* the actor's channel
@@ -45,7 +57,7 @@ VARIABLES durable,    \* [pk: [Keys -> packet], ix: set of <<ts, key>>]   the co
           now,
           batchUps, committedUps, published,   \* ghosts: accepted upserts of the open batch / of committed batches / all sent
           wl, points                           \* generator: workload with results, crash points
-vars == <<durable, work, open, n, inbox, replied, sent, acked, mode, now, batchUps, committedUps, published, wl, points>>
+vars == <<durable, disk, opener, work, open, n, inbox, replied, sent, acked, mode, now, batchUps, committedUps, published, wl, points>>
 
 NoP == [ts |-> 0, pl |-> 0]
 Packets == [ts : Tss, pl : Pls]
@@ -53,11 +65,12 @@ MoreRecent(a, b) == a.ts > b.ts \/ (a.ts = b.ts /\ a.pl > b.pl)
 Cutoff == IF now > Eviction THEN now - Eviction ELSE 0
 Empty == [pk |-> [k \in Keys |-> NoP], ix |-> {}]
 ClientMsgs == [op : {"upsert"}, k : Keys, p : Packets, t : {0}] \cup [op : {"get"}, k : Keys, p : {NoP}, t : {0}]
+SnapMsg == [op |-> "snap", k |-> CHOOSE k \in Keys : TRUE, p |-> NoP, t |-> 0]
 
-Point == [sent |-> sent', acked |-> acked', pk |-> durable'.pk, ix |-> {[t |-> e[1], k |-> e[2]] : e \in durable'.ix}]
+Point == [sent |-> sent', acked |-> acked', pk |-> disk'.pk, ix |-> {[t |-> e[1], k |-> e[2]] : e \in disk'.ix}]
 Track == points' = Append(points, Point)
 
-Init == /\ durable = Empty /\ work = Empty /\ open = FALSE /\ n = 0 /\ inbox = <<>> /\ replied = FALSE
+Init == /\ durable = Empty /\ disk = Empty /\ opener = "none" /\ work = Empty /\ open = FALSE /\ n = 0 /\ inbox = <<>> /\ replied = FALSE
         /\ sent = 0 /\ acked = 0 /\ mode = "run" /\ now = Now0
         /\ batchUps = {} /\ committedUps = {} /\ published = {} /\ wl = <<>>
         /\ points = <<[sent |-> 0, acked |-> 0, pk |-> Empty.pk, ix |-> {}]>>
@@ -65,7 +78,7 @@ Init == /\ durable = Empty /\ work = Empty /\ open = FALSE /\ n = 0 /\ inbox = <
 Send(m) == /\ mode = "run" /\ sent = acked /\ ~replied /\ sent < MaxMsgs
            /\ inbox' = Append(inbox, m) /\ sent' = sent + 1
            /\ published' = IF m.op = "upsert" THEN published \cup {<<m.k, m.p>>} ELSE published
-           /\ UNCHANGED <<durable, work, open, n, replied, acked, mode, now, batchUps, committedUps, wl>> /\ Track
+           /\ UNCHANGED <<durable, disk, opener, work, open, n, replied, acked, mode, now, batchUps, committedUps, wl>> /\ Track
 
 \* effect of one message on the transaction's tables; result = reply ("t"/"f" flag, or the packet for get)
 Upserted(T, k, p) == LET old == T.pk[k] IN
@@ -76,25 +89,34 @@ Checked(T, t, k) == LET cur == T.pk[k] IN
   IF cur # NoP /\ cur.ts < Cutoff THEN [pk |-> [T.pk EXCEPT ![k] = NoP], ix |-> T.ix \ {<<t, k>>}]
   ELSE [T EXCEPT !.ix = @ \ {<<t, k>>}]
 
-Handle == /\ mode = "run" /\ inbox # <<>> /\ ~(open /\ n >= B)
+\* a snapshot request that finds no open transaction is answered without opening one
+HandleSnapIdle == /\ mode = "run" /\ inbox # <<>> /\ ~open /\ Head(inbox).op = "snap"
+                  /\ inbox' = Tail(inbox) /\ replied' = TRUE
+                  /\ wl' = Append(wl, [op |-> "snap", k |-> Head(inbox).k, ts |-> 0, pl |-> 0, flag |-> FALSE, got |-> NoP, seen |-> durable.pk])
+                  /\ UNCHANGED <<durable, disk, opener, work, open, n, sent, acked, mode, now, batchUps, committedUps, published>> /\ Track
+Handle == /\ mode = "run" /\ inbox # <<>> /\ ~(open /\ n >= B) /\ (open \/ Head(inbox).op # "snap")
           /\ LET m == Head(inbox)
                  T == IF open THEN work ELSE durable          \* begin_write on the first message of a batch
                  T2 == CASE m.op = "upsert" -> Upserted(T, m.k, m.p)
-                         [] m.op = "get" -> T
+                         [] m.op \in {"get", "snap"} -> T
                          [] m.op = "check" -> Checked(T, m.t, m.k)
                  flag == m.op = "upsert" /\ ~(T.pk[m.k] # NoP /\ MoreRecent(T.pk[m.k], m.p))
              IN /\ work' = T2 /\ open' = TRUE /\ n' = (IF open THEN n ELSE 0) + 1
+                /\ opener' = IF open THEN opener ELSE (IF m.op = "check" THEN "check" ELSE "client")
                 /\ inbox' = Tail(inbox)
                 /\ replied' = (m.op # "check")
                 /\ batchUps' = IF flag THEN batchUps \cup {<<m.k, m.p>>} ELSE batchUps
                 /\ wl' = IF m.op = "check" THEN wl
                          ELSE Append(wl, [op |-> m.op, k |-> m.k, ts |-> m.p.ts, pl |-> m.p.pl, flag |-> flag,
-                                          got |-> T.pk[m.k]])
-          /\ UNCHANGED <<durable, sent, acked, mode, now, committedUps, published>> /\ Track
+                                          got |-> T.pk[m.k], seen |-> durable.pk])
+          /\ UNCHANGED <<durable, disk, sent, acked, mode, now, committedUps, published>> /\ Track
 Recv == /\ mode = "run" /\ replied /\ replied' = FALSE /\ acked' = acked + 1
-        /\ UNCHANGED <<durable, work, open, n, inbox, sent, mode, now, batchUps, committedUps, published, wl>> /\ Track
+        /\ UNCHANGED <<durable, disk, opener, work, open, n, inbox, sent, mode, now, batchUps, committedUps, published, wl>> /\ Track
 
-DoCommit == /\ durable' = work /\ open' = FALSE /\ n' = 0
+\* durability of the commit of the open batch
+DurableCommit == ~DurabilityByOpener \/ opener # "check"
+DoCommit == /\ durable' = work /\ open' = FALSE /\ n' = 0 /\ opener' = "none"
+            /\ disk' = IF DurableCommit THEN work ELSE disk
             /\ committedUps' = committedUps \cup batchUps /\ batchUps' = {}
 CommitFull == /\ mode = "run" /\ open /\ n >= B /\ DoCommit
               /\ UNCHANGED <<work, inbox, replied, sent, acked, mode, now, published, wl>> /\ Track
@@ -103,15 +125,16 @@ CommitTimeout == /\ Timeouts /\ mode = "run" /\ open /\ n < B /\ DoCommit
 \* the store is dropped once the client has all replies (unless KeepRunning)
 Close == /\ ~KeepRunning /\ mode = "run" /\ sent = acked /\ ~replied /\ sent = MaxMsgs /\ inbox = <<>>
          /\ mode' = "closed"
-         /\ IF open THEN DoCommit ELSE UNCHANGED <<durable, open, n, committedUps, batchUps>>
+         /\ IF open THEN DoCommit ELSE UNCHANGED <<durable, disk, opener, open, n, committedUps, batchUps>>
          /\ UNCHANGED <<work, inbox, replied, sent, acked, now, published, wl>> /\ Track
 
 Crash == /\ Crashes /\ mode = "run"
-         /\ mode' = "crashed" /\ open' = FALSE /\ n' = 0 /\ work' = durable /\ inbox' = <<>> /\ replied' = FALSE
+         /\ mode' = "crashed" /\ open' = FALSE /\ n' = 0 /\ opener' = "none" /\ inbox' = <<>> /\ replied' = FALSE
+         /\ durable' = disk /\ work' = disk          \* the open transaction and non-durable commits are gone
          /\ sent' = acked /\ batchUps' = {}
-         /\ UNCHANGED <<durable, acked, now, committedUps, published, wl, points>>
+         /\ UNCHANGED <<disk, acked, now, committedUps, published, wl, points>>
 Reopen == /\ mode = "crashed" /\ mode' = "run"
-          /\ UNCHANGED <<durable, work, open, n, inbox, replied, sent, acked, now, batchUps, committedUps, published, wl, points>>
+          /\ UNCHANGED <<durable, disk, opener, work, open, n, inbox, replied, sent, acked, now, batchUps, committedUps, published, wl, points>>
 
 \* eviction task: scans the committed index, queues one check per old entry (bounded channel: only when empty)
 EvictScan == /\ Evict /\ mode = "run" /\ inbox = <<>>
@@ -120,26 +143,29 @@ EvictScan == /\ Evict /\ mode = "run" /\ inbox = <<>>
                   /\ \E q \in [1..Cardinality(S) -> S] :
                        /\ \A i, j \in 1..Cardinality(S) : i # j => q[i] # q[j]
                        /\ inbox' = [i \in 1..Cardinality(S) |-> [op |-> "check", k |-> q[i][2], p |-> NoP, t |-> q[i][1]]]
-             /\ UNCHANGED <<durable, work, open, n, replied, sent, acked, mode, now, batchUps, committedUps, published, wl, points>>
+             /\ UNCHANGED <<durable, disk, opener, work, open, n, replied, sent, acked, mode, now, batchUps, committedUps, published, wl, points>>
 Tick == /\ Evict /\ now < MaxNow /\ now' = now + 1
-        /\ UNCHANGED <<durable, work, open, n, inbox, replied, sent, acked, mode, batchUps, committedUps, published, wl, points>>
+        /\ UNCHANGED <<durable, disk, opener, work, open, n, inbox, replied, sent, acked, mode, batchUps, committedUps, published, wl, points>>
 
-Next == (\E m \in ClientMsgs : Send(m)) \/ Handle \/ Recv \/ CommitFull \/ CommitTimeout \/ Close
+Next == (\E m \in ClientMsgs \cup {SnapMsg} : Send(m)) \/ HandleSnapIdle \/ Handle \/ Recv \/ CommitFull \/ CommitTimeout \/ Close
         \/ Crash \/ Reopen \/ EvictScan \/ Tick
 Spec == Init /\ [][Next]_vars
-FairSpec == Spec /\ WF_vars(Handle) /\ WF_vars(Recv) /\ WF_vars(CommitFull) /\ WF_vars(CommitTimeout) /\ WF_vars(EvictScan)
+FairSpec == Spec /\ WF_vars(Handle) /\ WF_vars(HandleSnapIdle) /\ WF_vars(Recv) /\ WF_vars(CommitFull) /\ WF_vars(CommitTimeout) /\ WF_vars(EvictScan)
 
 ---------------------------------------------------------------------------
 (* C39 *)
 \* the expiry index is consistent: every stored packet is indexed at its timestamp (dangling entries are allowed)
 Indexed(T) == \A k \in Keys : T.pk[k] # NoP => <<T.pk[k].ts, k>> \in T.ix
-IndexConsistent == Indexed(durable) /\ Indexed(work)
+IndexConsistent == Indexed(durable) /\ Indexed(work) /\ Indexed(disk)
 \* what the database holds is a packet that was published for that key
 PublishedOnly == \A k \in Keys : durable.pk[k] # NoP => <<k, durable.pk[k]>> \in published
 \* every packet whose batch committed is there, or a more recent one, unless it has expired
-CommittedSurvive == \A e \in committedUps :
-                       \/ durable.pk[e[1]] # NoP /\ ~MoreRecent(e[2], durable.pk[e[1]])
-                       \/ Evict /\ e[2].ts < Cutoff
+Holds(T, e) == \/ T.pk[e[1]] # NoP /\ ~MoreRecent(e[2], T.pk[e[1]])
+               \/ Evict /\ e[2].ts < Cutoff
+CommittedSurvive == \A e \in committedUps : Holds(durable, e)
+\* ... also on disk, whatever else the batch contained and whoever opened it (mixed batches: an eviction
+\* check and a client upsert in one transaction): an acknowledged upsert whose batch committed survives a crash
+CommittedOnDisk == \A e \in committedUps : Holds(disk, e)
 \* a crash loses exactly the open transaction
 CrashKeepsCommit == [][mode' = "crashed" => durable' = durable /\ work' = durable]_vars
 \* eviction never removes a packet that is not older than the cut-off
@@ -151,5 +177,5 @@ EventuallyEvicted == \A k \in Keys : <>[](mode # "run" \/ durable.pk[k] = NoP \/
 \* generator: one REPLAY line per complete behaviour (client done, store closed)
 Emit == mode = "closed" => PrintT(<<"REPLAY", ToJson([b |-> B, msgs |-> wl, points |-> points])>>)
 \* exhaustive configurations do not distinguish states by their history
-MCView == <<durable, work, open, n, inbox, replied, sent, acked, mode, now, batchUps, committedUps, published>>
+MCView == <<durable, disk, opener, work, open, n, inbox, replied, sent, acked, mode, now, batchUps, committedUps, published>>
 =============================================================================
